@@ -39,6 +39,7 @@
   two target statements on generated documents).
 -/
 import PestModel.Lemmas.Calc
+import PestModel.Lemmas.Json
 import PestModel.Props.C18
 import PestModel.Json
 import PestModel.Spec
@@ -287,14 +288,107 @@ example : climbTreeOld [.int 1, .sub, .int 2, .sub, .int 3]
 
 end Examples
 
-/-! ## JSON -/
+/-! ## JSON
 
-open Json
+  Stage 1 (lexical level) is proved for examples/json/json.pest; stages 2–4 are OPEN. -/
+
+open Json L0
 
 /-- the text of a document is as long as its pieces (used by `mirror` for the spans) -/
 theorem render_length (d : Doc) :
     (render d).length = d.w1.length + d.v.text.length + d.w2.length := by
   simp [render, wsText]; omega
+
+/-! ### the regenerated rule tables contain the terms the lemmas are about -/
+
+/-- `number` of examples/json/json.pest, as regenerated from the working tree, is the atomic
+    rule whose body `Lemmas/Json.lean` reasons about -/
+theorem examplesJson_number :
+    Generated.examplesJson.lookup "number"
+      = some { name := "number", mod := 4, body := exNumberBody, kind := .grammar } := by rfl
+
+/-- `string` (compound-atomic), `inner` (atomic), `char` of examples/json/json.pest likewise -/
+theorem examplesJson_string_rules : ExStringRules Generated.examplesJson :=
+  ⟨⟨.grammar, by rfl⟩, ⟨.grammar, by rfl⟩, ⟨.grammar, by rfl⟩⟩
+
+/-! ### stage 1: tokens -/
+
+/-- **Every RFC 8259 number is one `number` token (examples/json/json.pest).**  From any
+    state — atomic or not, any stack — at any position of any input that continues with the
+    text of a number `n` (any spelling: sign, `0` or digits without leading zero, optional
+    fraction, optional exponent with either case of `e` and optional sign) followed by
+    something that does not extend it (not a digit, `.`, `e`, `E`; in a document: whitespace,
+    `,`, `]`, `}` or the end), the rule `number` succeeds, consumes exactly the text of `n`,
+    and yields exactly one childless pair `number` over it.  (`Conv`: for all sufficient fuel.) -/
+theorem json_number_accepts (inp : Input) (s : S0) (n : Num) (post : Str)
+    (hr : inp.toList.drop s.pos = numText n ++ post) (hf : HeadIs NumFollow post) :
+    Conv Generated.examplesJson inp (.ident "number" none) s
+      (.ok { s with pos := s.pos + (numText n).length }
+        [mkPair "number" ATOMIC s.pos (s.pos + (numText n).length) []]) :=
+  (ev_exNumber examplesJson_number s n hr hf).conv (by simp)
+
+/-- **Every RFC 8259 string is one `string` token whose `inner` pair is the raw source slice
+    (examples/json/json.pest).**  From any state, at any position of any input that continues
+    with a string as written — raw characters `%x20-21 / %x23-5B / %x5D-10FFFF`, the eight
+    two-character escapes, `\uXXXX` with hex digits of either case — the rule `string`
+    succeeds, consumes exactly the quoted token, and yields the pair `string` over it with the
+    single childless child `inner` spanning what stands between the quotes
+    (`mirrorStr .examples`: the tree `Json.mirror` expects). -/
+theorem json_string_accepts (inp : Input) (s : S0) (cs : SStr) (post : Str)
+    (hr : inp.toList.drop s.pos = strText cs ++ post) :
+    Conv Generated.examplesJson inp (.ident "string" none) s
+      (.ok { s with pos := s.pos + (strText cs).length } [mirrorStr .examples s.pos cs]) :=
+  (ev_exString examplesJson_string_rules s cs hr).conv (by simp)
+
+/-- the hypotheses are met: `-12.50E+3` followed by `,`, from a non-atomic state at offset 1 -/
+example :
+    let n : Num := { neg := true, int := .nonzero 0 [2], frac := some (5, [0]),
+                     exp := some { upper := true, sign := .plus, d := 3, ds := [] } }
+    let inp : Input := (91 :: (numText n ++ [44, 49, 93])).toArray
+    inp.toList.drop 1 = numText n ++ [44, 49, 93] ∧ HeadIs NumFollow [44, 49, 93] ∧
+      numText n = [45, 49, 50, 46, 53, 48, 69, 43, 51] := by
+  refine ⟨rfl, ?_, rfl⟩
+  show ¬ IsDigit 44 ∧ (44 : CP) ≠ 46 ∧ (44 : CP) ≠ 101 ∧ (44 : CP) ≠ 69
+  unfold IsDigit; decide
+
+/-- `"a\"\u00e9"` : a raw character, an escape, a `\u` escape with mixed-case hex digits -/
+example : strText [.raw 97 (by decide), .esc .quote, .u (.dig 0) (.dig 0) (.lower 4) (.dig 9)]
+    = [34, 97, 92, 34, 92, 117, 48, 48, 101, 57, 34] := rfl
+
+/-! ### stages 2–4: OPEN
+
+  -- OPEN (stage 1 for tests/grammars/json.pest): the same two statements for
+  --   `Generated.testsJson`, whose `number` is `"-"? ~ int ~ ("." ~ ASCII_DIGIT+ ~ exp? | exp)?`
+  --   with nested atomic rules `int`/`exp`, and whose `inner` is the recursive rule
+  --   `(!("\"" | "\\") ~ ANY)* ~ (escape ~ inner)?` — same method (Lemmas/Ev.lean), not done:
+  --   theorem json_number_accepts_tests … : Conv Generated.testsJson inp (.ident "number" none) s
+  --       (.ok { s with pos := s.pos + (numText n).length } [mkPair "number" ATOMIC s.pos (s.pos + (numText n).length) []])
+  --   theorem json_string_accepts_tests … : Conv Generated.testsJson inp (.ident "string" none) s
+  --       (.ok { s with pos := s.pos + (strText cs).length } [mirrorStr .tests s.pos cs])
+  --
+  -- OPEN (stage 2, values): for every `v : Val`, from a non-atomic state, followed by whitespace, `,`, `]`,
+  --   `}` or the end:
+  --   theorem json_value_accepts (fl) (v : Val) … :
+  --       Conv (grammarOf fl) inp (.ident "value" none) s (.ok { s with pos := s.pos + v.text.length } [v.mirror fl s.pos])
+  --   (structural induction over `Val`/`Elems`/`Members`; needs `EvSkip` for the `WHITESPACE` rule in a
+  --    non-atomic context, the failure of the earlier alternatives of `value`, and the give-back of trivia
+  --    by `("," ~ value)*` before `]`)
+  --
+  -- OPEN (stage 3, documents):
+  --   theorem json_accepts (fl : Flavour) (d : Doc) (h : d.topLevelIsContainer) :
+  --       ∃ n, L0.parse (grammarOf fl) (render d).toArray n "json" 0
+  --         = .ok ⟨(render d).length, [], false⟩ (mirror fl d)
+  --
+  -- OPEN (stage 4, prefixes):
+  --   theorem json_rejects_prefix (fl : Flavour) (d : Doc) (h : d.topLevelIsContainer) (hw : d.noTrailingWs)
+  --       (q : Str) (hq : q <+: render d) (hne : q ≠ render d) :
+  --       ∃ n, L0.parse (grammarOf fl) q.toArray n "json" 0 = .fail
+  --
+  -- Until then the JSON half is checked, on every run, by *evaluating* these two statements with the
+  -- compiled model on generated documents (driver requests `J accepts` / `J prefixes`, which run
+  -- `L0.parse` on `Generated.examplesJson` / `Generated.testsJson` and compare with `Json.mirror`), and by
+  -- the failing-input search of harness/eng_examples.py against Python's `json` module.
+-/
 
 end C17
 end Pest
